@@ -201,6 +201,25 @@ def updated_definitions(tier):
                 jobs.append((scn, None if quick else None,
                              40 if quick else 900, 1,
                              'updated/%s/%s' % (pname, tag), -1))
+    # the definition is updated while a run of the old text is in flight:
+    # that run keeps following the text it was started with (its stored
+    # specification), with warm and with cold caches
+    for pname, a, b in pairs:
+        if pname == 'same_text':
+            continue
+        keys = wfgen.action_keys(a)
+        for res in ({k: ['S'] for k in keys},
+                    {k: ['E' if k == keys[0] else 'S'] for k in keys}):
+            tag = ''.join(res[k][0] for k in sorted(res))
+            for cc in (False, True):
+                scn = wfscn.ProgScenario(
+                    'inflight_update/%s/%s/%s' % (
+                        pname, tag, 'evict' if cc else 'cached'),
+                    a, results=res, clear_caches=cc, update_to=b)
+                if not scn.model()['confluent']:
+                    continue
+                jobs.append((scn, 0 if quick else 1, 40 if quick else 900,
+                             1, 'inflight_update/%s/%s' % (pname, tag), -1))
     return jobs
 
 
